@@ -3,6 +3,7 @@
 # the tree the binary was built from; prints the distinct MISMATCH fields and MONITOR clauses (dev tool, false-alarm hunting)
 drive=$1; seeds=$2; hists=${3:-6}; steps=${4:-300}; model=/verif/lean/.lake/build/bin/saomodel
 out=${SWEEP_OUT:-/tmp/sweep}; mkdir -p $out
+(cd $(dirname $model)/../../.. && lake build saomodel >/dev/null 2>&1)
 for seed in $seeds; do for p in main seedpoor staking did reward lifecycle timeouts faults auth genesis pending; do
   $drive -seed $seed -hists $hists -steps $steps -profile $p -j 16 -out $out/$p-$seed.trace 2>/dev/null
   $model < $out/$p-$seed.trace > $out/$p-$seed.out
